@@ -5,6 +5,7 @@ import TallyVerif.Driver.Rules
 import TallyVerif.Driver.Expr
 import TallyVerif.Driver.Engine
 import TallyVerif.Driver.Sandbox
+import TallyVerif.Driver.History
 import TallyVerif.Driver.Report
 import TallyVerif.Driver.RulesFile
 import TallyVerif.Driver.Fmt
@@ -26,6 +27,7 @@ def dispatch (j : Json) : Json :=
   | "eval" => handleEval j
   | "engine" => handleEngine j
   | "validate" => handleValidate j
+  | "history" => handleHistory j
   | "report" => handleReport j
   | "rulesfile" => handleRulesFile j
   | "viewsfile" => handleViewsFile j
